@@ -10,7 +10,8 @@
 (*   add   := mul   { ('+' | '-') mul }                                    *)
 (*   mul   := unary { ('*' | '/' | '%') unary }                            *)
 (*   unary := ('-' | '~') unary | primary                                  *)
-(*   primary := number | identifier | '(' or ')' | 'sizeof' '(' name ')'   *)
+(*   primary := number | identifier | '(' or ')' | 'sizeof' '(' name+ ')'  *)
+(*              (a type name may have several words: unsigned long)        *)
 (*                                                                         *)
 (* with all binary operators left associative, evaluated over unbounded    *)
 (* integers (range-guarded here), numbers in decimal / 0x hex / 0 octal /  *)
@@ -105,6 +106,11 @@ BinVal(o, a, b) == IF a = XX \/ b = XX THEN XX
                    ELSE IF ~BinDefined(o, a, b) THEN XX
                    ELSE LET r == ApplyBin(o, a, b) IN IF Big(r) THEN XX ELSE r
 
+\* a run of identifier tokens (the words of a type name) and its spelling with single spaces
+RECURSIVE WordsEnd(_, _), JoinWords(_, _, _)
+WordsEnd(toks, i) == IF i <= Len(toks) /\ toks[i].t = "i" THEN WordsEnd(toks, i + 1) ELSE i
+JoinWords(toks, i, j) == IF i > j THEN << >> ELSE IF i = j THEN toks[i].s ELSE toks[i].s \o <<32>> \o JoinWords(toks, i + 1, j)
+
 RECURSIVE POr(_, _, _), PLevel(_, _, _, _), PTail(_, _, _, _, _), PUnary(_, _, _), PPrimary(_, _, _)
 Levels == << {"|"}, {"^"}, {"&"}, {"<<", ">>"}, {"+", "-"}, {"*", "/", "%"} >>
 
@@ -131,8 +137,9 @@ PPrimary(toks, i, env) ==
        ELSE IF k.s = "(" THEN LET r == POr(toks, i + 1, env) IN
                               IF r.ok /\ IsOp(toks, r.i, {")"}) THEN [r EXCEPT !.i = r.i + 1] ELSE PErr
        ELSE IF k.s = "sizeof" THEN
-            IF IsOp(toks, i + 1, {"("}) /\ i + 2 <= Len(toks) /\ toks[i + 2].t = "i" /\ IsOp(toks, i + 3, {")"})
-            THEN [ok |-> TRUE, v |-> Lookup(env.sizes, toks[i + 2].s), i |-> i + 4] ELSE PErr
+            LET e == WordsEnd(toks, i + 2) IN        \* the words of the type name are toks[i+2 .. e-1]
+            IF IsOp(toks, i + 1, {"("}) /\ e > i + 2 /\ IsOp(toks, e, {")"})
+            THEN [ok |-> TRUE, v |-> Lookup(env.sizes, JoinWords(toks, i + 2, e - 1)), i |-> e + 1] ELSE PErr
        ELSE PErr
 
 \* [wf, v]: well-formed (lexes and parses completely) and its value (XX = outside the guarded domain)
